@@ -3,6 +3,8 @@
 -/
 import Krp.Props.C08
 import Krp.Lemmas.Arith
+import Krp.Init
+import Krp.Lemmas.Reach
 namespace Krp
 open HubSt
 
@@ -145,5 +147,48 @@ theorem C01_release_group_counterexample :
   decide
 
 example : 0 < mulDec 1000 (9 * D / 10) := by decide
+
+/-- **A withdrawal the hub accepts is always paid — as a whole transaction.** If the hub's
+    WithdrawUnbonded handler accepts (unpaused hub, the balance the handler sees is the hub's bank
+    balance), the bank transfer it emits cannot fail: the transaction succeeds, exactly the computed
+    amount leaves the hub, and `prev_hub_balance` is what remains. -/
+theorem C01_withdraw_tx_pays (s : Sys) (u : Addr) (h' : HubSt) (ms : List Msg)
+    (hp : s.hub.isPaused = false) (hu : u ≠ hubA)
+    (hx : s.hub.withdraw s.hubEnv u = .ok (h', ms)) :
+    ∃ s' amt, s.exec (.wasm u hubA (.hub .withdrawUnbonded) []) = (s', .ok ()) ∧
+      ms = [Msg.bankSend hubA u 0 amt] ∧ 0 < amt ∧
+      s'.chain.bank hubA 0 + amt = s.chain.bank hubA 0 ∧ s'.chain.bank u 0 = s.chain.bank u 0 + amt ∧
+      s'.hub = h' ∧ h'.prevHubBalance = s'.chain.bank hubA 0 := by
+  obtain ⟨_, h1, hpw, hne, hle, hh, hms⟩ := HubSt.withdraw_spec s.hub h' s.hubEnv u ms hx
+  have hbal : s.hubEnv.hubBalance = s.chain.bank hubA 0 := rfl
+  obtain ⟨amt, hamt⟩ : ∃ a, a = (h1.finished u).1 := ⟨_, rfl⟩
+  rw [← hamt] at hne hle hms hh
+  have hpos : 0 < amt := Nat.pos_of_ne_zero hne
+  obtain ⟨s1, hs1⟩ : ∃ x : Sys, x = { s with hub := h' } := ⟨_, rfl⟩
+  have H1 : s.handle (.wasm u hubA (.hub .withdrawUnbonded) []) = .ok (s1, [Msg.bankSend hubA u 0 amt]) := by
+    simp only [Sys.handle, Sys.moveFunds, bind, Except.bind, pure, Except.pure]
+    rw [if_pos trivial]
+    simp only [hubExec, hp, Bool.false_eq_true, if_false, hx, hms, hs1]
+    rfl
+  obtain ⟨s2, hs2⟩ : ∃ x : Sys, x = (s1.setBank hubA 0 (s1.chain.bank hubA 0 - amt)).setBank u 0
+      ((s1.setBank hubA 0 (s1.chain.bank hubA 0 - amt)).chain.bank u 0 + amt) := ⟨_, rfl⟩
+  have hch : s1.chain = s.chain := by rw [hs1]
+  have H2 : s1.handle (Msg.bankSend hubA u 0 amt) = .ok (s2, []) := by
+    simp only [Sys.handle, Sys.bankMove, bind, Except.bind, pure, Except.pure]
+    rw [if_neg (by omega), if_neg (by rw [hch]; rw [hbal] at hle; omega), hs2]
+  refine ⟨s2, amt, ?_, hms, hpos, ?_, ?_, ?_, ?_⟩
+  · unfold Sys.exec
+    simp only [Sys.run, H1, List.nil_append, List.append_nil, H2]
+  · rw [hs2]
+    have : ¬ hubA = u := fun h => hu h.symm
+    simp only [Sys.setBank, upd, hch, this, if_false, if_true]
+    rw [hbal] at hle; omega
+  · rw [hs2]
+    simp only [Sys.setBank, upd, hch, hu, if_false, if_true]
+  · rw [hs2, hs1]; rfl
+  · rw [hh, hs2]
+    have : ¬ hubA = u := fun h => hu h.symm
+    simp only [Sys.setBank, upd, hch, this, if_false, if_true]
+    rw [hbal]
 
 end Krp
